@@ -233,8 +233,12 @@ pub fn run_batch_with(exe: &std::path::Path, prop: &str, seed: u64, n: u64, work
                         }
                     }
                 } else if line.starts_with("DONE") {
-                    if deadline.map(|d| Instant::now() > d).unwrap_or(false) {
-                        queue.clear();
+                    if deadline.map(|d| Instant::now() > d).unwrap_or(false) || crashes.len() >= 3 {
+                        // out of time, or enough dead / hung workers to report: stop handing out work
+                        queue.retain(|c| c.0 >= CORPUS_BASE);
+                        if crashes.len() >= 3 {
+                            queue.clear();
+                        }
                     }
                     give(w, &mut queue);
                 } else if line == "EOF" {
@@ -264,6 +268,9 @@ pub fn run_batch_with(exe: &std::path::Path, prop: &str, seed: u64, n: u64, work
                     } else if let Some(c) = chunk {
                         // died between runs
                         queue.push_front(c);
+                    }
+                    if crashes.len() >= 3 {
+                        queue.clear();
                     }
                     if !queue.is_empty() {
                         let mut nw = spawn_worker(exe, prop, seed, id, &tx);
@@ -329,7 +336,8 @@ fn run_with_timeout(cmd: &mut Command, secs: u64) -> Option<(Option<i32>, bool, 
 
 /// Does this replay file still show its recorded finding on the current tree?
 fn reproduces(exe: &std::path::Path, path: &str, code: &str) -> bool {
-    match run_with_timeout(Command::new(exe).arg("replay").arg(path), 120) {
+    let limit = if code.ends_with("-hang") { 30 } else { 120 };
+    match run_with_timeout(Command::new(exe).arg("replay").arg(path), limit) {
         Some((Some(1), _, _)) => true,
         Some((_, true, _)) => code == "C01-abort",
         Some((None, false, s)) if s == "TIMEOUT" => code == "C01-hang",
@@ -534,7 +542,8 @@ pub fn check(args: &[String]) -> i32 {
 
     let deadline = if tier == "quick" { Some(Instant::now() + Duration::from_secs(240)) } else { Some(Instant::now() + Duration::from_secs(3300)) };
     let corpus = corpus_files(&prop);
-    let batch = run_batch_with(&exe, &prop, seed, runs, workers, Duration::from_secs(120), deadline, &corpus);
+    let watchdog = Duration::from_secs(if prop == "C15" { 90 } else { 30 });
+    let batch = run_batch_with(&exe, &prop, seed, runs, workers, watchdog, deadline, &corpus);
     let agg = &batch.agg;
     verdict.notes.push(format!("{} committed corpus / finding traces replayed under this property's oracles before the random search", corpus.len()));
 
@@ -543,7 +552,7 @@ pub fn check(args: &[String]) -> i32 {
     if prop == "C17" {
         if let Some(off) = &off_bin {
             let offp = std::path::PathBuf::from(off);
-            let b2 = run_batch(&offp, &prop, seed, runs, workers, Duration::from_secs(120), deadline);
+            let b2 = run_batch(&offp, &prop, seed, runs, workers, watchdog, deadline);
             let mut compared = 0u64;
             let mut differing: Vec<u64> = Vec::new();
             for (idx, r) in &b2.briefs {
@@ -592,11 +601,12 @@ pub fn check(args: &[String]) -> i32 {
 
     // C01: a slice of the same seeds through the unoptimised binary (large stack frames)
     let mut dev_extra = serde_json::json!(null);
-    if prop == "C01" {
+    let already_dead = verdict.violations.iter().any(|v| v.0.starts_with("C01-abort") || v.0.starts_with("C01-hang"));
+    if prop == "C01" && !already_dead {
         if let Some(dev) = arg(args, "--dev-bin") {
             let devp = std::path::PathBuf::from(dev);
             let n = (runs / 8).max(200);
-            let b3 = run_batch(&devp, &prop, seed, n, workers, Duration::from_secs(300), deadline);
+            let b3 = run_batch(&devp, &prop, seed, n, workers, Duration::from_secs(90), deadline);
             dev_extra = serde_json::json!({
                 "profile": "opt-level=0 (dev-like frames)",
                 "runs": b3.agg.evaluations,
@@ -757,11 +767,17 @@ fn classify(
         }
     }
     // crashed / hung runs: pin the event with a trace-mode run, then build the raw file here
-    for (idx, kind) in crashes.iter().filter(|c| c.0 < CORPUS_BASE).take(4) {
+    // one run per kind is pinned and minimised
+    let mut kinds_seen: Vec<&str> = Vec::new();
+    for (idx, kind) in crashes.iter().filter(|c| c.0 < CORPUS_BASE) {
+        if kinds_seen.contains(kind) {
+            continue;
+        }
+        kinds_seen.push(kind);
         let code = if prop == "C01" { format!("C01-{}", kind) } else { format!("ABANDON-{}", kind) };
         let run_seed = crate::rng::derive_seed(seed, crate::prop_tag(prop), *idx);
         let (t, _) = crate::profiles::gen_trace(prop, run_seed);
-        let res = run_with_timeout(Command::new(exe).args(["one", "--prop", prop, "--verif-seed", &seed.to_string(), "--index", &idx.to_string()]), 180);
+        let res = run_with_timeout(Command::new(exe).args(["one", "--prop", prop, "--verif-seed", &seed.to_string(), "--index", &idx.to_string()]), if *kind == "hang" { 20 } else { 120 });
         let last_ev = res
             .as_ref()
             .and_then(|(_, _, s)| s.lines().filter(|l| l.starts_with("EV ")).last().and_then(|l| l.split_whitespace().nth(2)).and_then(|x| x.parse::<usize>().ok()))
